@@ -349,12 +349,13 @@ theorem intToFloat_int64 {i : Int} (h : i.natAbs ≤ 2 ^ 63) : intToFloat i ≠ 
 
 /-! ### outcomes, no internal errors -/
 
-/-- every Python int inside the value lies in the int64 range -/
+/-- every Python int (and NumPy / JAX integer scalar) inside the value lies in the int64 range -/
 def inInt64 (i : Int) : Bool := decide (-(2 ^ 63 : Int) ≤ i ∧ i < (2 ^ 63 : Int))
 
 mutual
 def PyVal.intsInInt64 : PyVal → Bool
   | .int i => inInt64 i
+  | .npint _ i => inInt64 i
   | .list xs => listIntsInInt64 xs
   | _ => true
 def listIntsInInt64 : List PyVal → Bool
@@ -379,6 +380,10 @@ theorem toArrCore_noInternal : ∀ v : PyVal, v.intsInInt64 = true → (toArrCor
   | .float _, _ => rfl
   | .str _ (some _), _ => rfl
   | .str _ Option.none, _ => rfl
+  | .npint _ i, h => by
+    simp only [PyVal.intsInInt64] at h
+    simp only [toArrCore]
+    exact bind_isInternal (intToFloat_inInt64 h) (fun _ _ => rfl)
   | .arr _ _ _, _ => rfl
   | .sparse _ _ _, _ => rfl
   | .list xs, h => by
@@ -422,6 +427,7 @@ theorem isnanScalar_noInternal {v : PyVal} (hfi : v.isFloatOrInt = true) :
 theorem pyFloat_noInternal {v : PyVal} (h : v.intsInInt64 = true) : (pyFloat v).isInternal = false := by
   cases v with
   | int i => simp only [PyVal.intsInInt64] at h; exact intToFloat_inInt64 h
+  | npint f i => simp only [PyVal.intsInInt64] at h; exact intToFloat_inInt64 h
   | str s n => cases n <;> rfl
   | arr lib shape data =>
     cases shape with
